@@ -4,6 +4,7 @@ use std::path::Path;
 pub mod c07;
 pub mod c13;
 pub mod c14;
+pub mod c18;
 
 pub fn worker_main() {
     crate::bg::install_quiet_panic_hook();
@@ -20,6 +21,7 @@ macro_rules! table {
             "C07" => $f(&c07::C07, $arg),
             "C13" => $f(&c13::C13, $arg),
             "C14" => $f(&c14::C14, $arg),
+            "C18" => $f(&c18::C18, $arg),
             other => {
                 eprintln!("unknown property {other}");
                 2
